@@ -143,6 +143,19 @@ def handle (op : String) (a r : Json) : Except String Reply := do
       pure { m := m, prop := some okSpec,
              why := if okSpec then "" else "state/messages after this history of updates differ from the specification's",
              sig := if okSpec then "" else "C06/history-differs-from-spec" }
+  | "burst" =>
+    -- every trial is some order of `copies` steps with one update: relayed in exactly one of them
+    -- (relay_at_most_once; the first step relays) — provided test-and-insert of the seen table is one critical section
+    let trials ← getNat a "trials"
+    let spec := jObj [("trials", jNat trials), ("twice", jNat 0), ("never", jNat 0)]
+    let m := if Receptor.Facts.route_seen_atomic then spec
+             else jObj [("unmodelled", Json.str "the seen table is tested and filled in two critical sections: deliveries of one update interleave inside a step")]
+    let holds := canonEq r spec
+    let twice := (getNat r "twice").toOption.getD 0
+    pure { m := m, prop := some holds,
+           why := if holds then "" else (if twice > 0 then s!"{twice} of {trials} updates that arrived over several connections at the same instant were relayed more than once to the same neighbour"
+                  else "an update that arrived over several connections at the same instant was not relayed at all, or the node wedged"),
+           sig := if holds then "" else (if twice > 0 then "C06/burst/relayed-more-than-once" else "C06/burst/not-relayed") }
   | _ => throw s!"bad-op flood {op}"
 
 end Receptor.Drive.Flood
